@@ -46,7 +46,10 @@ Record hcase := mkCase {
   c_init_obs : obs;
   c_has_handle : bool;            (* false: creation/loading failed, no handle *)
   c_init_queries : list (query * qobs);
-  c_steps : list (op * obs * list (query * qobs)) }.
+  c_steps : list (op * obs * list (query * qobs));
+  (* storage calls each step issued, as (kind, argument): 0 Seek(arg, Start), 1 Write of arg
+     bytes, 2 Truncate(arg), 3 Seek(0, End); one list per step, [] = not recorded *)
+  c_traces : list (list (Z * Z)) }.
 
 Definition sha := Sha2.sha256.
 
@@ -136,14 +139,47 @@ Definition qobs_eqb (a b : qobs) : bool :=
 Definition check_queries (s : state) (qs : list (query * qobs)) : list Z :=
   flat_map (fun qo => if qobs_eqb (run_query s (fst qo)) (snd qo) then [] else [11]) qs.
 
+(* the ReadWriter calls behind a list of storage events, from storage state io *)
+Fixpoint calls_of (b : backend) (io : fstate) (evs : list event) : list (Z * Z) :=
+  match evs with
+  | [] => []
+  | ev :: r =>
+      (match ev with
+       | EvSeek o => [(0, Z.of_nat o)]
+       | EvWrite bs => [(1, Z.of_nat (length bs))]
+       | EvTrunc n => [(2, Z.of_nat n)]
+       | EvResize n =>
+           (3, 0) ::
+           (if (n <? length (f_bytes io))%nat then [(2, Z.of_nat n)]
+            else if (length (f_bytes io) <? n)%nat then [(0, Z.of_nat n - 1); (1, 1)]
+            else [])
+       end) ++
+      match backend_apply b ev io with
+      | Some io' => calls_of b io' r
+      | None => []
+      end
+  end.
+
+(* code 14: the sequence of storage calls differs *)
+Definition check_trace (s : state) (x : op) (tr : list (Z * Z)) : list Z :=
+  match tr, x with
+  | [], _ => []
+  | _, OpReload => []
+  | _, _ =>
+      let '(_, _, evs) := plan_op sha (s_mem s) x in
+      if pairs_eqb (calls_of (s_backend s) (s_io s) evs) tr then [] else [14]
+  end.
+
 Fixpoint check_steps (cid : Z) (i : Z) (s : state) (steps : list (op * obs * list (query * qobs)))
-  : list (Z * Z * Z) :=
+         (traces : list (list (Z * Z))) : list (Z * Z * Z) :=
   match steps with
   | [] => []
   | (x, o, qs) :: r =>
       let '(s', res) := step sha s x in
-      map (fun c => (cid, i, c)) (check_state (s_mem s') (s_io s') res o true ++ check_queries s' qs)
-      ++ check_steps cid (i + 1) s' r
+      map (fun c => (cid, i, c))
+          (check_state (s_mem s') (s_io s') res o true ++ check_queries s' qs
+           ++ check_trace s x (hd [] traces))
+      ++ check_steps cid (i + 1) s' r (tl traces)
   end.
 
 Definition empty_mem : mem := mkM (mkH [] [] [] [] [] 0 0 0 0 0 0 0 0) [] [].
@@ -155,7 +191,7 @@ Definition check_create (c : hcase) (co : copts) : list (Z * Z * Z) :=
           map (fun x => (c_id c, 0, x))
               (check_state (s_mem s) (s_io s) r (c_init_obs c) true
                ++ (if c_has_handle c then [] else [10]) ++ check_queries s (c_init_queries c))
-          ++ check_steps (c_id c) 1 s (c_steps c)
+          ++ check_steps (c_id c) 1 s (c_steps c) (c_traces c)
       | None =>
           map (fun x => (c_id c, 0, x))
               (check_state empty_mem io r (c_init_obs c) false
@@ -172,7 +208,7 @@ Definition check_case (c : hcase) : list (Z * Z * Z) :=
           map (fun x => (c_id c, 0, x))
               (check_state (s_mem s) (s_io s) r (c_init_obs c) true
                ++ (if c_has_handle c then [] else [10]) ++ check_queries s (c_init_queries c))
-          ++ check_steps (c_id c) 1 s (c_steps c)
+          ++ check_steps (c_id c) 1 s (c_steps c) (c_traces c)
       | None =>
           map (fun x => (c_id c, 0, x))
               (check_state empty_mem io r (c_init_obs c) false
@@ -184,7 +220,7 @@ Definition check_case (c : hcase) : list (Z * Z * Z) :=
           map (fun x => (c_id c, 0, x))
               (check_state (s_mem s) (s_io s) Ok (c_init_obs c) true
                ++ (if c_has_handle c then [] else [10]) ++ check_queries s (c_init_queries c))
-          ++ check_steps (c_id c) 1 s (c_steps c)
+          ++ check_steps (c_id c) 1 s (c_steps c) (c_traces c)
       | inr e =>
           map (fun x => (c_id c, 0, x))
               (check_state empty_mem (mkF (expand bytes) 0) (Err e) (c_init_obs c) false
